@@ -5,8 +5,8 @@ COQ_PROPS = ["Properties_C07.v"]; COQ_EXTRACT = "Extract_C07.v"
 LEVEL = "proof"
 RULE = ("cases = pairs (A,B) of tree automata over a ranked alphabet {a/0,b/0,g/1,f/2}(+h/3) loaded into both BDD encodings through Timbuk text: corpus "
         "(incl. the D9 pair); complete slice (all A with <=2 states,<=2 rules x all B with 1 state,<=2 rules; sampled in the quick tier); targeted (languages differing only in a leaf two or more levels down (several refinement rounds), child "
-        "state reached with two incomparable macro-states under a binary rule, quotient pairs, near-miss pairs, missing leaf symbols, useless states); random "
-        "pairs up to 4+4 states; every case runs 4 top-down + 2 bottom-up selections; a subset additionally runs all 128 flag words on both encodings. "
+        "state reached with two incomparable macro-states under a binary rule, quotient pairs, near-miss pairs, missing leaf symbols, useless states; coherent defective copies and coinductive traps = a positive answer obtained under a cyclic hypothesis that is refuted later and asked for again; operands that are two copies of one loaded automaton with their own final states); random "
+        "pairs up to 4+4 states; every case runs 4 top-down + 2 bottom-up selections; a subset additionally runs all 128 flag words on both encodings; a selection exceeding the per-case time limit (2 s) is inconclusive. "
         "Non-trivial = both languages non-empty; distinct by the pair")
 EXHAUSTIVE_SLICES = "thorough tier only: all A with <=2 states,<=2 rules x all B with 1 state,<=2 rules over {a/0,b/0,g/1,f/2}; flag sweep: all 128 words x 2 encodings on the sweep cases"
 TRUSTED_BASE = [
@@ -84,6 +84,18 @@ def cases(rng, tier):
     for (a, b) in targeted(rng, 150 if tier == "quick" else 1500):
         k += 1
         cs.append(("incl %s %s%s" % (a.fmt(), b.fmt(), " SWEEP" if k % 25 == 0 else ""), "targeted"))
+    for _ in range(150 if tier == "quick" else 6000):   # coherent defective copies: hypotheses refuted late, alternatives, repeated sub-goals
+        a, b = gen.defective_copies_pair(rng)
+        cs.append(("incl %s %s" % (a.fmt(), b.fmt()), "defective_copies"))
+    for _ in range(500 if tier == "quick" else 8000):   # a positive answer obtained under a cyclic hypothesis that is refuted later, asked for again
+        a, b = gen.coinductive_trap_pair(rng)
+        cs.append(("incl %s %s" % (a.fmt(), b.fmt()), "coinductive_trap"))
+    for _ in range(200 if tier == "quick" else 4000):   # operands = two copies of one loaded automaton (shared transition table), own final states
+        base = gen.rand_ta_sized(rng, 4, 8, leafbias=0.3)
+        st = sorted(base.states()) or [0]
+        fa = [q for q in st if rng.random() < 0.4] or [rng.choice(st)]
+        fb = [q for q in st if rng.random() < 0.4] if rng.random() < 0.5 else [q for q in fa if rng.random() < 0.7] + [rng.choice(st)]
+        cs.append(("incl %s %s" % (gen.TA(fa, base.rules).fmt(), gen.TA(fb, base.rules).fmt()), "shared_table"))
     n = 800 if tier == "quick" else 15000
     for i in range(n):
         sg = rng.choice([gen.SIGMA, gen.SIGMA, gen.SIGMA3])
@@ -100,7 +112,7 @@ def cases(rng, tier):
     return out
 def observe(dist, c, impl, verd):
     for k in verd.split():
-        if k in ("included", "notincluded", "Aempty", "Bempty"): dist[k] = dist.get(k, 0) + 1
+        if k in ("included", "notincluded", "Aempty", "Bempty", "timeout", "shared_table"): dist[k] = dist.get(k, 0) + 1
     if " SWEEP" in c: dist["flag_sweeps"] = dist.get("flag_sweeps", 0) + 1
 def shrink_candidates(c):
     tail = ""
